@@ -34,8 +34,10 @@ class Compiled:
             pass
 
 
-def compile_files(files: Dict[str, str], opts=(), tag="s", descriptor_only=False) -> Compiled:
-    """Write the .proto files, run protoc (+ plugin unless descriptor_only). rc != 0 with fds None = protoc rejected."""
+def compile_files(files: Dict[str, str], opts=(), tag="s", descriptor_only=False, order=None) -> Compiled:
+    """Write the .proto files, run protoc (+ plugin unless descriptor_only). rc != 0 with fds None = protoc rejected.
+    order: the order of the files on protoc's command line - None / "sorted", "reversed", or an int (rotation of the
+    sorted list); protoc hands the plugin the files dependencies first, otherwise in this order."""
     work = env.work_dir()
     case_id = f"{tag}{os.getpid()}_{next(_counter)}"
     src = os.path.join(work, case_id + "_src")
@@ -45,9 +47,15 @@ def compile_files(files: Dict[str, str], opts=(), tag="s", descriptor_only=False
         os.makedirs(os.path.dirname(p), exist_ok=True)
         with open(p, "w") as fh:
             fh.write(text)
+    names = sorted(files)
+    if order == "reversed":
+        names = names[::-1]
+    elif isinstance(order, int) and names:
+        k = order % len(names)
+        names = names[k:] + names[:k]
     desc = os.path.join(work, case_id + ".desc")
     # 1. schema validity is protoc's decision alone (no plugin involved)
-    cp = build.run_protoc(src, sorted(files), None, desc)
+    cp = build.run_protoc(src, names, None, desc)
     if cp.returncode != 0:
         c = Compiled(case_id, work, None, None, cp.returncode, cp.stderr, [])
         c.protoc_rejected = True
@@ -60,7 +68,7 @@ def compile_files(files: Dict[str, str], opts=(), tag="s", descriptor_only=False
     if descriptor_only:
         return c
     # 2. the plugin
-    cp = build.run_protoc(src, sorted(files), out, None, opts)
+    cp = build.run_protoc(src, names, out, None, opts)
     c.rc, c.stderr = cp.returncode, cp.stderr
     return c
 
